@@ -722,6 +722,7 @@ func (g *FuncGen) execReturn(x *ssa.Return, st *State) error {
 	if g.c == nil {
 		return nil
 	}
+	g.retReaches = append(g.retReaches, st.reach)
 	env := &Env{g: g, vars: map[string]Val{}, heap: st.heap, old: g.entryHeap, pkg: g.pkg}
 	for k, v := range g.paramTerms {
 		env.vars[k] = v
@@ -771,6 +772,15 @@ type postParts struct {
 }
 
 func (g *FuncGen) flushPosts() {
+	// vacuity: some return must be reachable under everything assumed along the way
+	if len(g.retReaches) > 0 {
+		guard := g.retReaches[0]
+		if len(g.retReaches) > 1 {
+			guard = "(or " + strings.Join(g.retReaches, " ") + ")"
+		}
+		g.counts["cover.ret"]++
+		g.obls = append(g.obls, &Obligation{Name: g.fname + "#cover.ret.1", Func: g.fname, Kind: "cover.ret", Guard: guard, Goal: "true", Desc: "a return is reachable (assumptions along the paths are consistent)", WantSat: true, Gen: g})
+	}
 	for _, key := range g.postOrder {
 		pp := g.posts[key]
 		idx := 0
